@@ -1,0 +1,28 @@
+//go:build verif
+
+// Machine-checked contracts for package labels (comment-only; read by /verif/cmd/govc).
+
+package labels
+
+// ---- packed block index (C18) ----
+
+//@ func EncodeBlockIndex
+//@   prop C18
+//@   ensures zyx == (packc(z) << 42) | (packc(y) << 21) | packc(x)
+
+//@ func DecodeBlockIndex
+//@   prop C18
+//@   ensures x == unpackc(zyx & 0x1FFFFF) && y == unpackc((zyx >> 21) & 0x1FFFFF) && z == unpackc((zyx >> 42) & 0x1FFFFF)
+
+//@ func verifLemmaBlockIndexRoundTrip
+//@   prop C18
+//@   lemma
+//@   requires -1048576 < x && x < 1048576 && -1048576 < y && y < 1048576 && -1048576 < z && z < 1048576
+//@   ensures x2 == x && y2 == y && z2 == z
+
+//@ func verifLemmaBlockIndexInjective
+//@   prop C18
+//@   lemma
+//@   requires -1048576 < x && x < 1048576 && -1048576 < y && y < 1048576 && -1048576 < z && z < 1048576
+//@   requires -1048576 < x2 && x2 < 1048576 && -1048576 < y2 && y2 < 1048576 && -1048576 < z2 && z2 < 1048576
+//@   ensures a == b ==> x == x2 && y == y2 && z == z2
